@@ -542,8 +542,8 @@ class Sem:
         if x.op == "phi" and depth < 4:
             # a bool computed on several paths (`let ok = match o { Some(v) => v == w, None => false };`): the constant
             # alternatives that contradict the observed truth are ruled out; a single remaining alternative is what was observed
+            # (a constant alternative that AGREES with the observed truth rules nothing out: the flag may owe its value to it)
             rest = [a for a in x.args if not (a.op == "const" and a.info[0] == "scalar" and bool(a.info[1]) != truth)]
-            rest = [a for a in rest if not (a.op == "const" and a.info[0] == "scalar")]
             if len(rest) == 1 and len(rest) < len(x.args):
                 return self._norm_bool(self.w.ident(rest[0], expand_ws=False), truth, depth + 1)
         if x.op == "bin" and x.info in self.NEG:
